@@ -1776,11 +1776,9 @@ class Qobj:
     def istp(self) -> bool:
         if self.type not in ['super', 'oper']:
             return False
-        # Normalize to a super of type choi or chi.
-        # We can test with either Choi or chi, since the basis
-        # transformation between them is unitary and hence
-        # preserves the CP and TP conditions.
-        if self.issuper and self.superrep in ('choi', 'chi'):
+        # Normalize to a super of type choi: the partial-trace condition below
+        # is not invariant under the change of basis to the chi matrix.
+        if self.issuper and self.superrep == 'choi':
             qobj = self
         else:
             qobj = qutip.to_choi(self)
